@@ -232,7 +232,14 @@ impl<'a> Planner<'a> {
             }
             resolved_values.extend(op_node.output_ids().iter().filter_map(|id_opt| *id_opt));
             pruned_plan.push(node_id);
-            candidate_outputs.extend(op_node.output_ids().iter().filter_map(|id_opt| *id_opt));
+            // Values that were supplied as inputs are already in the list.
+            candidate_outputs.extend(
+                op_node
+                    .output_ids()
+                    .iter()
+                    .filter_map(|id_opt| *id_opt)
+                    .filter(|id| !inputs.contains(id)),
+            );
         }
 
         // Get IDs of values produced by the pruned plan which are either in the
